@@ -383,6 +383,25 @@ def run_save(recipe: dict, plan: dict | None, root: str, retry: bool = True) -> 
                         d = diff_snapshot(snap0, snapshot(model))
                         if d:
                             rec["violations"].append({"class": "model-changed", "detail": ["after a second save"] + d[:5]})
+                        # ... and a third save, onto the first destination again (its files now exist and were written by us)
+                        if not rec["violations"]:
+                            fs4 = SimFS(sandbox, None, hide_fileno=cfg.get("backend") == "nofileno",
+                                        clock_steps=cfg.get("clock") or DEFAULT_CLOCK)
+                            exc4 = None
+                            with fs4:
+                                try:
+                                    torch_2_5.save_model_with_external_data(model, call_path, verbose=bool(cfg.get("verbose")))
+                                except Exception as e:  # noqa: BLE001
+                                    exc4 = e
+                            rec["resave"] = "returned" if exc4 is None else f"raised {type(exc4).__name__}"
+                            if exc4 is not None:
+                                rec["violations"].append({"class": "resave-fails", "detail": [f"{type(exc4).__name__}: {str(exc4)[:200]}"]})
+                            else:
+                                rec["violations"] += _roundtrip_violations(check_roundtrip(real_path, model, expected), "resave-bad-roundtrip")
+                                rec["violations"] += _roundtrip_violations(check_roundtrip(path2, model, expected), "second-destination-damaged")
+                                d = diff_snapshot(snap0, snapshot(model))
+                                if d:
+                                    rec["violations"].append({"class": "model-changed", "detail": ["after saving onto the first destination again"] + d[:5]})
             # I4 — bounded recovery: faults have stopped, one retry must succeed and round-trip
             if retry and faulted and outcome == "raised" and cfg.get("path_form") != "missingdir":
                 fs2 = SimFS(sandbox, None, hide_fileno=cfg.get("backend") == "nofileno",
@@ -463,5 +482,5 @@ def digest(rec: dict) -> str:
     from dsim.common import jdump
 
     keep = {k: rec.get(k) for k in ("outcome", "exc", "events", "fired", "missed", "notes", "violations",
-                                    "retry", "second_save", "files", "sizes", "clock_reads", "stderr_writes")}
+                                    "retry", "second_save", "resave", "files", "sizes", "clock_reads", "stderr_writes")}
     return sha(jdump(keep).encode())
